@@ -50,10 +50,14 @@ theorem frame_pred (su : Setup) (P : World → Registry → Prop) (hP : AppPred 
   · rename_i o ho
     split at hf
     · cases hf
-    · rename_i st' k seen hq
-      simp only [Option.some.injEq] at hf
-      subst hf
-      exact runQueue_pred su P hP reacts _ _ _ _ _ _ _ _ (hP.update _ _ _ _ _ h ho) hq
+    · rename_i st1 k1 seen1 hq1
+      split at hf
+      · cases hf
+      · rename_i st2 k2 seen2 hq2
+        simp only [Option.some.injEq] at hf
+        subst hf
+        exact runQueue_pred su P hP reacts _ _ _ _ _ _ _ _
+          (runQueue_pred su P hP reacts _ _ _ _ _ _ _ _ (hP.update _ _ _ _ _ h ho) hq1) hq2
 
 /-- an application predicate that holds of the empty app holds of every reachable state -/
 theorem reachable_pred (su : Setup) (P : World → Registry → Prop) (hP : AppPred su P) (h0 : P [] [])
